@@ -1603,10 +1603,13 @@ MANIFEST = {
             "import_clash_reported, missing_limit_reported, cycle_reported, changed_file_reread. SEVERAL USERS: the model "
             "(execU/stepU) has a library and cache per user, loads focus on the user's own directory (the code has NO "
             "shadowing of / fall-back to master), module-level load_theory calls go to master; "
-            "user_resolution_spec_partial (a user's load = the specification on that user's files) is proved for worlds "
-            "without lazy imports only, users_isolated_partial for file operations only; the cross-user effects of loads "
-            "through lazy imports are tied by the second-user histories (now compared with the model step by step), not by a "
-            "theorem. FUEL: every theorem admits the outcome 'the model ran out of fuel'; no theorem says that some amount of "
+            "users_isolated: a load for user B -- with the lazily imported modules and the master loads it triggers -- "
+            "and every edit / touch / load_metadata of B's files leave the library and cache of every other user A (A not "
+            "master for loads) exactly as they were; user_resolution_spec_partial (a user's load = the specification on that "
+            "user's own files) is proved for worlds without lazy imports only; there is NO history-level load_eq_spec for "
+            "several users (it needs the cache invariant threaded through every user's state): the results of loads in "
+            "multi-user histories, including users whose imports differ from master's and theories master lacks, are judged by "
+            "the second-user histories (fresh process, reference loader, model step by step). FUEL: every theorem admits the outcome 'the model ran out of fuel'; no theorem says that some amount of "
             "fuel suffices; every run confirms on its own histories that fuel 400 sufficed. "
             "FAILING-INPUT SEARCH: when the model correspondence breaks on a synthetic history on which no oracle objected, an "
             "amplified history is run with every load judged against its own fresh process. "
